@@ -80,3 +80,89 @@ Proof. intros n H. repeat (destruct H as [<-|H]; [vm_compute; discriminate|]). c
 Example ex_ill_formed_panics :
   split_node (fun _ => 40) ex_t (mk_cnode ex_t 0 4 3) [0; 1] = None.
 Proof. vm_compute. reflexivity. Qed.
+
+(* ---------------------------------------------------------------------------------------------------------------
+   Composition with the codec model (Proofs/SplitDict.v): a concrete stack -- a system dictionary and a user dictionary
+   whose compound declares an inline reference to a system word (found by its headword), a U-reference and an inline
+   reference to an own word -- compiled by the codec model's writer and read back by its reader meets every hypothesis of
+   C09_split_exact_from_source, and the conclusion is a non-trivial value. *)
+From SudachiVerif Require Import Model.Codec Proofs.CodecProofs Proofs.CodecLexProofs Model.CodecResolve Model.SplitSource Proofs.SplitDict.
+From Coq Require Import ZArith.
+
+(* system: 0 "a" (headword "Ａ")   1 "b"   2 "ab" A = 0/1
+   user:   0 "é"   1 "abé"  A = [ab,pos,reading (inline, system word 2) ; U0]   B = [0 ; 1 ; é,pos,reading (inline, own word 0)] *)
+Definition w_sys : list rrow :=
+  [ row [97] [65313] [1] 0 [] []; row [98] [98] [2] 0 [] []; row [97; 98] [97; 98] [3] 0 [uref 0; uref 1] [] ].
+Definition w_usr : list rrow :=
+  [ row [233] [233] [4] 0 [] [];
+    row [97; 98; 233] [120] [5] 0 [uinl [97; 98] 0 [3]; uref (DIC + 0)] [uref 0; uref 1; uinl [233] 0 [4]] ].
+Definition w_ds : srcs := [w_sys; w_usr].
+
+Definition w_es0 : list entry := match resolve_rows false w_sys [] with Some es => es | None => [] end.
+Definition w_es1 : list entry := match resolve_rows true w_usr w_es0 with Some es => es | None => [] end.
+Definition w_prefix : bytes := [7; 7; 7].
+Definition w_sec (es : list entry) : bytes := match write_words_section 3 es with Some s => s | None => [] end.
+Definition w_cs : list compiled := [mkComp (w_prefix ++ w_sec w_es0) 3; mkComp (w_prefix ++ w_sec w_es1) 3].
+
+Lemma w_wf : forall es, es = w_es0 \/ es = w_es1 -> lexicon_wf es.
+Proof.
+  intros es [-> | ->] e H; vm_compute in H;
+    repeat (destruct H as [<-|H]; [vm_compute; repeat split; try reflexivity; discriminate|]); contradiction.
+Qed.
+
+Lemma w_compiles : forall user sys rows es,
+  resolve_rows user rows sys = Some es -> write_words_section 3 es = Some (w_sec es) ->
+  (N.of_nat (List.length (w_prefix ++ w_sec es)) <? 4294967296) = true -> lexicon_wf es ->
+  compiles_to user sys rows es (mkComp (w_prefix ++ w_sec es) 3).
+Proof.
+  intros user sys rows es H1 H2 H3 H4. exists w_prefix, (w_sec es).
+  split; [exact H1|]. split; [exact H2|]. split; [apply N.ltb_lt; exact H3|]. split; [exact H4|]. split; reflexivity.
+Qed.
+
+Example w_stack_compiled : stack_compiled w_ds w_cs.
+Proof.
+  exists w_sys, [w_usr], (mkComp (w_prefix ++ w_sec w_es0) 3), [mkComp (w_prefix ++ w_sec w_es1) 3], w_es0.
+  split; [reflexivity|]. split; [reflexivity|]. split.
+  - apply w_compiles; [vm_compute; reflexivity|vm_compute; reflexivity|vm_compute; reflexivity|apply w_wf; left; reflexivity].
+  - constructor; [|constructor]. exists w_es1.
+    apply w_compiles; [vm_compute; reflexivity|vm_compute; reflexivity|vm_compute; reflexivity|apply w_wf; right; reflexivity].
+Qed.
+
+Example w_srcs_ok : srcs_ok w_ds.
+Proof.
+  unfold srcs_ok, w_ds. repeat (apply Forall_cons || apply Forall_nil); (split; [|vm_compute; discriminate]);
+    repeat (apply Forall_cons || apply Forall_nil); vm_compute; reflexivity.
+Qed.
+
+(* the author's condition holds for the user compound in both modes, and what is loaded is what the rows say *)
+Example w_rows_units_ok : rows_units_ok w_ds true (DIC + 1) = true /\ rows_units_ok w_ds false (DIC + 1) = true.
+Proof. vm_compute. split; reflexivity. Qed.
+
+Example w_loaded :
+  ld_units w_cs 1 (fun _ => 1) true (DIC + 1) = [2; DIC + 0] /\
+  ld_units w_cs 1 (fun _ => 1) false (DIC + 1) = [0; 1; DIC + 0] /\
+  src_units w_ds true (DIC + 1) = Some [2; DIC + 0] /\
+  map (ld_hw w_cs 1 (fun _ => 1)) [0; 1; 2; DIC + 0; DIC + 1] = [1; 1; 2; 2; 4].
+Proof. vm_compute. repeat split; reflexivity. Qed.
+
+(* text "xabé": the C token of the user compound covers chars 1..4 / bytes 1..5 *)
+Example w_covers : covers [120; 97; 98; 233] (mkNode 1 4 1 5 (DIC + 1)) (src_key w_ds (DIC + 1)).
+Proof. exists [120], []. vm_compute. repeat split; reflexivity. Qed.
+
+Example w_split_A :
+  split_node (ld_hw w_cs 1 (fun _ => 1)) [120; 97; 98; 233] (mkNode 1 4 1 5 (DIC + 1)) [2; DIC + 0]
+  = Some [mkNode 1 3 1 3 2; mkNode 3 4 3 5 (DIC + 0)].
+Proof. vm_compute. reflexivity. Qed.
+
+(* the correspondence predicate is live: it accepts what the implementation reports for this case and rejects a
+   sub-token boundary moved by one byte *)
+Example w_check_source_accepts :
+  check_source w_ds [120; 97; 98; 233] [0; 1; 2; 3; 4; 5] [(1, 4, DIC + 1)] [([2; DIC + 0], [0; 1; DIC + 0])]
+    [Some (true, [(2, (1, 3, (1, 3))); (DIC + 0, (3, 5, (3, 5)))])]
+    [Some (true, [(0, (1, 2, (1, 2))); (1, (2, 3, (2, 3))); (DIC + 0, (3, 5, (3, 5)))])] = true.
+Proof. vm_compute. reflexivity. Qed.
+Example w_check_source_rejects :
+  check_source w_ds [120; 97; 98; 233] [0; 1; 2; 3; 4; 5] [(1, 4, DIC + 1)] [([2; DIC + 0], [0; 1; DIC + 0])]
+    [Some (true, [(2, (1, 2, (1, 2))); (DIC + 0, (2, 5, (2, 5)))])]
+    [Some (true, [(0, (1, 2, (1, 2))); (1, (2, 3, (2, 3))); (DIC + 0, (3, 5, (3, 5)))])] = false.
+Proof. vm_compute. reflexivity. Qed.
